@@ -24,38 +24,40 @@ impl FixedBytes for Hash { open spec fn bytes(&self) -> Seq<u8> { self.b@ } }
 impl FixedBytes for BlindingFactor { open spec fn bytes(&self) -> Seq<u8> { self.b@ } }
 pub trait Reader {
     spec fn buf(&self) -> Seq<u8>;
-    fn read_u16(&mut self) -> (r: Result<u16, ser::Error>) ensures r matches Ok(v) ==> old(self).buf() == enc_u16(v) + final(self).buf();
-    fn read_u32(&mut self) -> (r: Result<u32, ser::Error>) ensures r matches Ok(v) ==> old(self).buf() == enc_u32(v) + final(self).buf();
-    fn read_u64(&mut self) -> (r: Result<u64, ser::Error>) ensures r matches Ok(v) ==> old(self).buf() == enc_u64(v) + final(self).buf();
-    fn read_i64(&mut self) -> (r: Result<i64, ser::Error>) ensures r matches Ok(v) ==> old(self).buf() == enc_i64(v) + final(self).buf();
+    spec fn version(&self) -> u32;
+    fn read_u16(&mut self) -> (r: Result<u16, ser::Error>) ensures final(self).version() == old(self).version(), r matches Ok(v) ==> old(self).buf() == enc_u16(v) + final(self).buf();
+    fn read_u32(&mut self) -> (r: Result<u32, ser::Error>) ensures final(self).version() == old(self).version(), r matches Ok(v) ==> old(self).buf() == enc_u32(v) + final(self).buf();
+    fn read_u64(&mut self) -> (r: Result<u64, ser::Error>) ensures final(self).version() == old(self).version(), r matches Ok(v) ==> old(self).buf() == enc_u64(v) + final(self).buf();
+    fn read_i64(&mut self) -> (r: Result<i64, ser::Error>) ensures final(self).version() == old(self).version(), r matches Ok(v) ==> old(self).buf() == enc_i64(v) + final(self).buf();
 }
 pub trait Writer {
     spec fn out(&self) -> Seq<u8>;
     spec fn hash_mode(&self) -> bool;
+    spec fn version(&self) -> u32;
     fn serialization_mode(&self) -> (r: ser::SerializationMode) ensures (r is Hash) == self.hash_mode();
-    fn write_u16(&mut self, v: u16) -> (r: Result<(), ser::Error>) ensures final(self).hash_mode() == old(self).hash_mode(), r is Ok ==> final(self).out() == old(self).out() + enc_u16(v);
-    fn write_u32(&mut self, v: u32) -> (r: Result<(), ser::Error>) ensures final(self).hash_mode() == old(self).hash_mode(), r is Ok ==> final(self).out() == old(self).out() + enc_u32(v);
-    fn write_u64(&mut self, v: u64) -> (r: Result<(), ser::Error>) ensures final(self).hash_mode() == old(self).hash_mode(), r is Ok ==> final(self).out() == old(self).out() + enc_u64(v);
-    fn write_i64(&mut self, v: i64) -> (r: Result<(), ser::Error>) ensures final(self).hash_mode() == old(self).hash_mode(), r is Ok ==> final(self).out() == old(self).out() + enc_i64(v);
-    fn write_fixed_bytes<T: FixedBytes>(&mut self, v: &T) -> (r: Result<(), ser::Error>) ensures final(self).hash_mode() == old(self).hash_mode(), r is Ok ==> final(self).out() == old(self).out() + v.bytes();
+    fn write_u16(&mut self, v: u16) -> (r: Result<(), ser::Error>) ensures final(self).hash_mode() == old(self).hash_mode(), final(self).version() == old(self).version(), r is Ok ==> final(self).out() == old(self).out() + enc_u16(v);
+    fn write_u32(&mut self, v: u32) -> (r: Result<(), ser::Error>) ensures final(self).hash_mode() == old(self).hash_mode(), final(self).version() == old(self).version(), r is Ok ==> final(self).out() == old(self).out() + enc_u32(v);
+    fn write_u64(&mut self, v: u64) -> (r: Result<(), ser::Error>) ensures final(self).hash_mode() == old(self).hash_mode(), final(self).version() == old(self).version(), r is Ok ==> final(self).out() == old(self).out() + enc_u64(v);
+    fn write_i64(&mut self, v: i64) -> (r: Result<(), ser::Error>) ensures final(self).hash_mode() == old(self).hash_mode(), final(self).version() == old(self).version(), r is Ok ==> final(self).out() == old(self).out() + enc_i64(v);
+    fn write_fixed_bytes<T: FixedBytes>(&mut self, v: &T) -> (r: Result<(), ser::Error>) ensures final(self).hash_mode() == old(self).hash_mode(), final(self).version() == old(self).version(), r is Ok ==> final(self).out() == old(self).out() + v.bytes();
 }
 impl Hash {
     #[verifier::external_body]
-    pub fn read<R: Reader>(reader: &mut R) -> (r: Result<Hash, ser::Error>) ensures r matches Ok(h) ==> old(reader).buf() == h.b@ + final(reader).buf() && h.b@.len() == 32 { unimplemented!() }
+    pub fn read<R: Reader>(reader: &mut R) -> (r: Result<Hash, ser::Error>) ensures final(reader).version() == old(reader).version(), r matches Ok(h) ==> old(reader).buf() == h.b@ + final(reader).buf() && h.b@.len() == 32 { unimplemented!() }
 }
 impl BlindingFactor {
     #[verifier::external_body]
-    pub fn read<R: Reader>(reader: &mut R) -> (r: Result<BlindingFactor, ser::Error>) ensures r matches Ok(h) ==> old(reader).buf() == h.b@ + final(reader).buf() && h.b@.len() == 32 { unimplemented!() }
+    pub fn read<R: Reader>(reader: &mut R) -> (r: Result<BlindingFactor, ser::Error>) ensures final(reader).version() == old(reader).version(), r matches Ok(h) ==> old(reader).buf() == h.b@ + final(reader).buf() && h.b@.len() == 32 { unimplemented!() }
 }
 #[verifier::external_body]
 pub struct Proof { _p: u8 }
 pub uninterp spec fn sp_enc_proof(p: Proof, hash_mode: bool) -> Seq<u8>;
 impl Proof {
     #[verifier::external_body]
-    pub fn read<R: Reader>(reader: &mut R) -> (r: Result<Proof, ser::Error>) ensures r matches Ok(p) ==> old(reader).buf() == sp_enc_proof(p, false) + final(reader).buf() { unimplemented!() }
+    pub fn read<R: Reader>(reader: &mut R) -> (r: Result<Proof, ser::Error>) ensures final(reader).version() == old(reader).version(), r matches Ok(p) ==> old(reader).buf() == sp_enc_proof(p, false) + final(reader).buf() { unimplemented!() }
     #[verifier::external_body]
     pub fn write<W: Writer>(&self, writer: &mut W) -> (r: Result<(), ser::Error>)
-        ensures final(writer).hash_mode() == old(writer).hash_mode(), r is Ok ==> final(writer).out() == old(writer).out() + sp_enc_proof(*self, old(writer).hash_mode()) { unimplemented!() }
+        ensures final(writer).hash_mode() == old(writer).hash_mode(), final(writer).version() == old(writer).version(), r is Ok ==> final(writer).out() == old(writer).out() + sp_enc_proof(*self, old(writer).hash_mode()) { unimplemented!() }
 }
 pub struct Utc {}
 #[allow(non_upper_case_globals)]
@@ -104,17 +106,20 @@ impl Difficulty {
 //@ end
 //@ extract core/src/pow/types.rs :: impl Readable for Difficulty::read
 //@   ensures:
+//@+    final(reader).version() == old(reader).version(),
 //@+    r matches Ok(d) ==> old(reader).buf() == enc_u64(d.num) + final(reader).buf(),
 //@ end
 }
 impl HeaderVersion {
 //@ extract core/src/core/block.rs :: impl Writeable for HeaderVersion::write
 //@   ensures:
+//@+    final(writer).version() == old(writer).version(),
 //@+    final(writer).hash_mode() == old(writer).hash_mode(),
 //@+    r is Ok ==> final(writer).out() == old(writer).out() + enc_u16(self.0),
 //@ end
 //@ extract core/src/core/block.rs :: impl Readable for HeaderVersion::read
 //@   ensures:
+//@+    final(reader).version() == old(reader).version(),
 //@+    r matches Ok(v) ==> old(reader).buf() == enc_u16(v.0) + final(reader).buf(),
 //@ end
 }
@@ -122,18 +127,21 @@ impl ProofOfWork {
 //@ extract core/src/pow/types.rs :: impl ProofOfWork::write_pre_pow
 //@   expand_ser_macros
 //@   ensures:
+//@+    final(writer).version() == old(writer).version(),
 //@+    final(writer).hash_mode() == old(writer).hash_mode(),
 //@+    r is Ok ==> final(writer).out() =~= old(writer).out() + sp_enc_pow_pre(*self),
 //@ end
 //@ extract core/src/pow/types.rs :: impl Writeable for ProofOfWork::write
 //@   rewrite `writer.serialization_mode() != ser::SerializationMode::Hash` => `!writer.serialization_mode().is_hash_mode()`
 //@   ensures:
+//@+    final(writer).version() == old(writer).version(),
 //@+    final(writer).hash_mode() == old(writer).hash_mode(),
 //@+    r is Ok && !old(writer).hash_mode() ==> final(writer).out() =~= old(writer).out() + sp_enc_pow(*self),
 //@+    r is Ok && old(writer).hash_mode() ==> final(writer).out() =~= old(writer).out() + sp_enc_proof(self.proof, true),
 //@ end
 //@ extract core/src/pow/types.rs :: impl Readable for ProofOfWork::read
 //@   ensures:
+//@+    final(reader).version() == old(reader).version(),
 //@+    r matches Ok(p) ==> old(reader).buf() =~= sp_enc_pow(p) + final(reader).buf(),
 //@ end
 }
@@ -143,17 +151,20 @@ impl ProofOfWork {
 //@   rewrite `chrono::NaiveDate::MIN\n\t\t\t\t.and_hms_opt(0, 0, 0)\n\t\t\t\t.unwrap()\n\t\t\t\t.and_utc()\n\t\t\t\t.timestamp()` => `naive_min_ts()`
 //@   rewrite `DateTime::<Utc>::from_timestamp(` => `DateTime::from_timestamp(`
 //@   ensures:
+//@+    final(reader).version() == old(reader).version(),
 //@+    r matches Ok(h) ==> old(reader).buf() =~= sp_enc_header(h) + final(reader).buf() && sp_naive_min() <= h.timestamp.secs <= sp_naive_max(),
 //@ end
 impl BlockHeader {
 //@ extract core/src/core/block.rs :: impl BlockHeader::write_pre_pow
 //@   expand_ser_macros
 //@   ensures:
+//@+    final(writer).version() == old(writer).version(),
 //@+    final(writer).hash_mode() == old(writer).hash_mode(),
 //@+    r is Ok ==> final(writer).out() =~= old(writer).out() + sp_enc_header_pre(*self),
 //@ end
 //@ extract core/src/core/block.rs :: impl Writeable for BlockHeader::write
 //@   ensures:
+//@+    final(writer).version() == old(writer).version(), final(writer).hash_mode() == old(writer).hash_mode(),
 //@+    r is Ok && !old(writer).hash_mode() ==> final(writer).out() =~= old(writer).out() + sp_enc_header(*self),
 //@+    r is Ok && old(writer).hash_mode() ==> final(writer).out() =~= old(writer).out() + sp_enc_proof(self.pow.proof, true),
 //@ end
